@@ -67,6 +67,23 @@ def observe(project):
             if lim:
                 tlim[t.fullId] = dump_limits(lim)
         out["scenarios"].append({"id": sc.id, "idx": scIdx, "tasks": tasks, "order": order, "resources": res, "tasklimits": tlim})
+    # the project calendar (Project.initScoreboards / isWorkingTime) as maximal runs [lo, hi) of working slots
+    runs = []
+    sb = getattr(project, "scoreboard", None)
+    if sb is not None:
+        lo = None
+        n = sb.size
+        for i in range(n):
+            w = bool(project.isWorkingTime(i))
+            if w and lo is None:
+                lo = i
+            elif not w and lo is not None:
+                runs.append([lo, i])
+                lo = None
+        if lo is not None:
+            runs.append([lo, n])
+        out["projwork"] = runs
+        out["projsize"] = n
     msgs = MessageHandlerInstance().messages
     out["warnings"] = sorted({getattr(m, "id", None) or getattr(m, "msg_id", None) or str(m)[:40] for m in msgs})
     return out
